@@ -59,6 +59,9 @@ def _case(draw):
         "B_r_CP": draw(gen.vec3(-2, -0.3)),
         # the system is assembled a second time before it is evaluated (as set_new_initial_state does)
         "assemble_twice": draw(st.integers(0, 3)) == 0,
+        # states at rounding distance from the reference configuration (what a converged or nearly undeformed rod is):
+        # the nodal perturbations are scaled by 10^pert_exp
+        "pert_exp": draw(st.sampled_from([0, 0, 0, 0, 0, 0, -8, -12, -17, -21])),
     }
 
 
@@ -91,7 +94,8 @@ def check(spec):
     feats = {"formulation": site, "degree": rs["degree"], "nel": rs["nel"]}
     n = rodbuild.nnodes(rs)
     nq, nu = system.nq, system.nu
-    q = rodbuild.perturb(rs, Q, spec["dr"], spec["dp"], spec["scales"])
+    ps = 10.0 ** spec.get("pert_exp", 0)
+    q = rodbuild.perturb(rs, Q, (ps * np.array(spec["dr"])).tolist(), (ps * np.array(spec["dp"])).tolist(), spec["scales"])
     u = np.array((spec["u"] * (nu // 11 + 1))[:nu], dtype=float)
     ud = np.array((spec["u_dot"] * (nu // 7 + 1))[:nu], dtype=float)
     la_c = np.array((spec["la"] * (system.nla_c // 7 + 1))[: system.nla_c], dtype=float)
@@ -185,4 +189,6 @@ def check(spec):
     nonunit = float(np.max(np.abs(np.linalg.norm(P, axis=0) - 1.0))) > 1e-2
     res.nontrivial = nonunit
     res.label(site, f"degree={rs['degree']}", "quat:non-unit" if nonunit else "quat:unit")
+    if spec.get("pert_exp", 0) < 0:
+        res.label(f"state:reference+1e{spec['pert_exp']}")
     return res
